@@ -257,7 +257,7 @@ def _replay_uc(stem, vals):
         for seed in (1, 2):
             uc.reset_units(seed=seed)
             a = uc.get_in_units(uc.set_in_units(1.0, 'eV'), 'J')
-            if want_ind and not np.isclose(a, 1.602176634e-19, rtol=1e-6):
+            if want_ind and not np.isclose(a, 1.602176634e-19, rtol=1e-6, atol=0.0):
                 msgs.append('1 eV in J under seed %d = %r' % (seed, a))
         for kw in (dict(length='angstrom', mass='amu', energy='eV', charge='e'), dict(mass='amu', time='ps', energy='eV'), dict(length='nm', time='ps', energy='eV'),
                    dict(length='angstrom', energy='eV'), dict(length='angstrom', mass='amu', time='ps')):
@@ -265,6 +265,37 @@ def _replay_uc(stem, vals):
             for name in kw.values():
                 if want_reset and not np.isclose(uc.unit[name], 1.0, rtol=1e-9):
                     msgs.append('after reset_units(%s): unit[%r] = %r (should be 1)' % (', '.join('%s=%r' % kv for kv in kw.items()), name, uc.unit[name]))
+        # a re-seed leaves no stale state: names parsed before are evaluated with the new table; fresh expressions convert correctly
+        uc.reset_units(seed=4)
+        uc.parse('eV')
+        uc.parse('eV/angstrom')
+        for sd in (5, None, 'SI', 6):
+            uc.reset_units(**({} if sd is None else {'seed': sd}))
+            if not np.isclose(uc.parse('eV'), uc.unit['eV'], rtol=1e-12, atol=0.0):
+                msgs.append("after reset_units(seed=%r): parse('eV') = %r but unit['eV'] = %r" % (sd, uc.parse('eV'), uc.unit['eV']))
+            got = uc.get_in_units(uc.set_in_units(1.0, 'eV/angstrom'), 'kg*m/s^2')
+            if not np.isclose(got, 1.602176634e-9, rtol=1e-9, atol=0.0):
+                msgs.append('after reset_units(seed=%r): 1 eV/angstrom = %r kg*m/s^2 (expected 1.602176634e-09)' % (sd, got))
+        # dimension of every mechanical entry of the LAMMPS unit styles: the value in SI units must not depend on the working units
+        if stem.startswith('style['):
+            only = (stem[stem.index('[') + 1:stem.index(']')], stem[stem.rindex('[') + 1:stem.rindex(']')])          # (unit style, quantity) of the failed obligation
+            vals_by_seed = []
+            for sd in (11, 12):
+                uc.reset_units(seed=sd)
+                row = {}
+                for st in ('real', 'metal', 'si', 'cgs', 'electron', 'micro', 'nano'):
+                    for q, expr in am.lammps.style.unit(st).items():
+                        if expr is None:
+                            continue
+                        dims = {'length': 'm', 'mass': 'kg', 'time': 's', 'energy': 'J', 'velocity': 'm/s', 'force': 'N', 'torque': 'N*m', 'temperature': 'K', 'pressure': 'Pa',
+                                'dynamic viscosity': 'Pa*s', 'charge': 'C', 'dipole': 'C*m', 'electric field': 'V/m', 'density': 'kg/m^3', 'ang-mom': 'kg*m^2/s', 'ang-vel': '1/s'}
+                        if q in dims and (st, q) == only:
+                            row[(st, q)] = uc.get_in_units(uc.parse(expr), dims[q])
+                vals_by_seed.append(row)
+            for key in vals_by_seed[0]:
+                a_, b_ = vals_by_seed[0][key], vals_by_seed[1][key]
+                if not np.isclose(a_, b_, rtol=1e-9, atol=0.0):
+                    msgs.append('LAMMPS style %r: %r does not have the dimension of %s (its value in SI units changes with the working units: %r vs %r)' % (key[0], key[1], key[1], a_, b_))
     except Exception as e:
         msgs.append('raised %s: %s' % (type(e).__name__, e))
     finally:
@@ -348,6 +379,17 @@ def independence(E, L):
     uc.reset_units(seed=7)
     r2 = uc.parse('eV') / uc.parse('J')
     E.prove('independence.across_resets', r1 == r2)
+    # after a re-seed every expression is evaluated with the NEW unit table, also expressions that were parsed before the re-seed (no stale state of any kind)
+    seen_before = ['eV', 'J', 'eV/angstrom', 'GPa', 'amu*angstrom^2/ps^2', 'kcal/mol', 'N']
+    for k_, how in enumerate((dict(seed=5), dict(), dict(seed='SI'), dict(seed=9))):
+        uc.reset_units(**how)
+        for name in seen_before + ['N/C', 'Pa*s']:
+            E.prove('parse.uses_current_units_after_reseed[%d][%s]' % (k_, name), uc.parse(name) == spec_eval(name, uc.unit))
+        if how.get('seed') == 'SI':
+            for name in ('m', 'kg', 's', 'C', 'K', 'J', 'N', 'Pa', 'kg*m/s^2', 'J/m^3'):
+                E.prove('parse.SI_expression_is_one_under_SI_seed[%s]' % name, uc.parse(name) == 1)
+        v2 = E.real('v_after%d' % k_)
+        E.prove('independence.fresh_pair_after_reseed[%d]' % k_, uc.get_in_units(uc.set_in_units(v2, 'eV/angstrom'), 'N') * realconst(Fraction(10 ** 19, 1)) == v2 * realconst(Fraction('1.602176634') * 10 ** 10))
     E.prove('reset.changes_working_units', uc.unit['m'] is not None and str(uc.unit['m']) != 'Sym(m)')
     try:
         uc.reset_units(seed=3, length='nm')
